@@ -45,7 +45,7 @@ def build():
     fcntl.flock(lock, fcntl.LOCK_EX)
     try:
         t0 = time.time()
-        r = subprocess.run(["make", "-C", VERIF, "-j", str(NCPU), "SAN=" + SAN, "REPO=" + REPO, "BUILD=" + BUILD_ROOT], stdout=subprocess.PIPE, stderr=subprocess.STDOUT, text=True)
+        r = subprocess.run(["make", "-C", VERIF, "-j", str(NCPU), "SAN=" + SAN, "REPO=" + REPO, "BUILD=" + BUILD_ROOT] + (["SIM=" + os.environ["NIXSIM_SIM"]] if os.environ.get("NIXSIM_SIM") else []), stdout=subprocess.PIPE, stderr=subprocess.STDOUT, text=True)
         if r.returncode != 0:
             sys.stdout.write(r.stdout[-6000:])
             log("BUILD FAILED: /repo's working tree does not compile with the harness")
@@ -374,7 +374,12 @@ def check(prop, tier):
         coverage["version_triples_per_file"] = int(cnt.get("version.triples", 0) // runs_ok)
         coverage["order_law_pairs"] = int(cnt.get("version.order_pairs", 0))
         coverage["exhaustive"] = True
-        coverage["rule"] = RULES["C10"] + "; evaluations = open attempts over all files, distinct_nontrivial = (triple, mode, Force) combinations of the cube, each enumerated completely on every file"
+        coverage["cross_triples_total"] = int(cnt.get("version.cross_triples_total", 0) // runs_ok)
+        coverage["cross_triples_per_file"] = int(cnt.get("version.cross_triples", 0) // runs_ok)
+        coverage["rule"] = RULES["C10"] + ("; evaluations = open attempts over all files, distinct_nontrivial = (triple, mode, Force) combinations per file. Every file enumerates the "
+            "core cube {lib-2..lib+2, 9, INT_MAX}^3 completely (exhaustive=true refers to this cube) and one eighth (residue class of its seed) of the cross: one component from "
+            "radix-boundary values (10^k, 2^8, 2^16 and their neighbours, library component +- radix, negatives, INT_MIN), the other two from the core axes; a batch of >= 8 files "
+            "covers the whole cross")
     level = LEVELS.get(prop, "exploration")
     assumptions = ["libhdf5 1.10.8 behaves as documented", "tmpfs returns what was written", "a clean batch is evidence over the sampled histories, not proof",
                    "one forked process per run: a seed is one exactly repeatable execution (event hash gate on every reported violation)"]
